@@ -39,6 +39,10 @@ def gen_cfg(r, i):
     if not big and r.random() < 0.3:
         # a proposal with compact support INSIDE the prior box: the kernel visits points with zero proposal density but finite prior
         cfg.update(prop_kind="uniform", prop_mu=0.0, prop_sigma=0.7 * cfg["half"], like_center=0.6 * cfg["half"], like_width=0.4)
+    if not big and s != "importance" and r.random() < 0.25:
+        # a likelihood with a hard cut INSIDE the prior support: a share of the proposal's draws has finite prior and log L = -inf
+        # (they belong to the initial population like any other finite-prior draw)
+        cfg["like_cut"] = -0.25 * cfg["half"]
     if s.endswith("_smc") and r.random() < 0.4:
         cfg["n_final_samples"] = int(cfg["n_samples"] * r.choice([0.5, 2]))
     if s == "minipcn_smc":
@@ -272,6 +276,63 @@ def check_reload(chk):
         shutil.rmtree(tmp, ignore_errors=True)
 
 
+def check_resumed_objects(chk):
+    """populations handed back by an object built with `resume_from_file`: their stored log_q is THAT object's proposal at the row's
+    coordinates - also after the usual continuation of an analysis: resume, refit the proposal on the new samples, sample again into
+    the same file, and resume that file once more"""
+    import shutil
+    import tempfile
+
+    from aspire import Aspire
+
+    from .. import aspire_level as al
+
+    tmp = tempfile.mkdtemp(prefix="aspire_verif_")
+    try:
+        for variant in ("resume", "resume+refit+sample+resume", "resume+refit(overwrite)+sample+resume"):
+            t = smcrun.Target(2)
+            path = f"{tmp}/{abs(hash(variant)) % 10**6}.h5"
+            case = {"level": "resumed_object", "sequence": variant}
+            chk.count("resumed_objects")
+            chk.case(None, json.dumps(case))
+            skw = dict(n_samples=14, sampler="smc", sampler_kwargs={"n_steps": 1}, adaptive=False, n_steps=3, return_history=True)
+            try:
+                a = al.make_aspire(t, dims=2, flow_seed=11)
+                a.fit(al.training_samples(2, 1, center=0.2, spread=0.8))
+                with al.orng_seed(5), a.auto_checkpoint(path, every=1):
+                    a.sample_posterior(**skw)
+                r1 = Aspire.resume_from_file(path, log_likelihood=t.log_likelihood, log_prior=t.log_prior)
+                objs = [("first resumed object", r1)]
+                if variant != "resume":
+                    r1.fit(al.training_samples(2, 2, center=0.9, spread=1.7), **({"overwrite": True, "checkpoint_path": path} if "overwrite" in variant else {}))
+                    with al.orng_seed(6):
+                        out1 = r1.sample_posterior(**skw)
+                    objs = [("resumed, refitted object", r1)]
+                    r2 = Aspire.resume_from_file(path, log_likelihood=t.log_likelihood, log_prior=t.log_prior)
+                    objs.append(("object resumed from the file the refitted run wrote", r2))
+                for oname, o in objs:
+                    with al.orng_seed(7):
+                        smp, hist = o.sample_posterior(**skw) if oname != "resumed, refitted object" else out1
+                    sets = [("returned samples", smp)] + [(f"history[{i}]", p) for i, p in enumerate(hist.sample_history)]
+                    for name, st in sets:
+                        if st.log_q is None:
+                            continue
+                        x, lq = ns.to_np(st.x), ns.to_np(st.log_q)
+                        ref = ns.to_np(o.flow.log_prob(o.flow.xp.asarray(x) if hasattr(o.flow, "xp") else x))
+                        if not np.allclose(lq, ref, rtol=1e-8, atol=1e-8):
+                            j = int(np.argmax(np.abs(lq - ref)))
+                            chk.fail("stored log-densities are L, pi, q at the row's coordinates", dict(case, object=oname, where=name),
+                                     f"{oname}, {name}: row {j} stores log q = {lq[j]!r}, the object's proposal at its coordinates gives {ref[j]!r}",
+                                     {"clause": "coherent", "level": "resumed_object", "field": "lq"})
+                            raise StopIteration
+            except StopIteration:
+                pass
+            except Exception as e:   # noqa
+                chk.fail("run total", case, repr(e)[:300], {"clause": "raise", "level": "resumed_object"})
+    finally:
+        shutil.rmtree(tmp, ignore_errors=True)
+
+
 def run(chk: core.Check):
     r = np.random.default_rng(chk.seed + 10010)
     quick = chk.tier == "quick"
@@ -285,6 +346,7 @@ def run(chk: core.Check):
         check_run(chk, gen_cfg(r, i), lines, keep)
     check_pool(chk, quick)
     check_reload(chk)
+    check_resumed_objects(chk)
     for (case, ix, ilq, ilp), rep in zip(keep, drv.batch(lines)):
         if not rep.ok:
             raise core.HarnessError(rep.err)
